@@ -18,7 +18,7 @@ META = {
     ],
     "assumptions": [
         "Unmarshal on a fresh receiver; playlist values without nil elements inside slices",
-        "grammar part: valid value = wf_media / wf_multivariant of Model/PlaylistSpec.v; muxer-served playlists are not part of this check's run (see DESIGN notes)",
+        "grammar part: valid value = wf_media / wf_multivariant of Model/PlaylistSpec.v; muxer-served playlists = those of 12 (quick) / 120 (thorough) real Muxer scenarios per run (three variants, H264 + optional AAC, random pacing), non-blocking requests only",
     ],
 }
 
